@@ -61,6 +61,7 @@ type verifPacketConn struct {
 	writeCalls      int
 	yieldOnDeadline bool
 	writeFailAt     int // the k-th write (1-based) fails
+	writeFailClosed bool // ... the way a write to a socket closed meanwhile fails
 	mu              sync.Mutex
 	closedCh        chan struct{}
 	// reads wait (instead of timing out) while no read deadline was ever armed, as on a real socket
@@ -127,6 +128,9 @@ func (c *verifPacketConn) WriteTo(p []byte, addr net.Addr) (int, error) {
 	c.writeCalls++
 	failNow := c.writeFailAt > 0 && c.writeCalls == c.writeFailAt
 	c.mu.Unlock()
+	if failNow && c.writeFailClosed {
+		return 0, &net.OpError{Op: "write", Net: "udp", Err: net.ErrClosed}
+	}
 	if c.writeErr != nil || failNow {
 		return 0, errVerifFault
 	}
@@ -248,6 +252,8 @@ type verifSRead struct {
 }
 
 type verifStreamConn struct {
+	writeBrokenFrom  int // the k-th write (1-based) and all later ones fail like writes to a peer that went away
+	closedOverUnread int // Close was called while data sent by the peer was still unread
 	name                string
 	reads               []verifSRead
 	readPos             int
@@ -356,6 +362,10 @@ func (c *verifStreamConn) Write(b []byte) (int, error) {
 	if c.writeErr != nil {
 		return 0, c.writeErr
 	}
+	if c.writeBrokenFrom > 0 && c.writeCalls >= c.writeBrokenFrom {
+		// the peer has gone away: broken pipe / connection reset on this and every later write
+		return 0, &net.OpError{Op: "write", Net: "tcp", Err: errVerifFault}
+	}
 	if c.closed > 0 || c.closedWrite > 0 {
 		c.writesAfterClose++
 		return 0, net.ErrClosed
@@ -364,7 +374,16 @@ func (c *verifStreamConn) Write(b []byte) (int, error) {
 	return len(b), nil
 }
 
-func (c *verifStreamConn) Close() error     { c.closed++; c.ev("Close"); return nil }
+func (c *verifStreamConn) Close() error {
+	if c.closed == 0 && c.closedOverUnread == 0 && (c.readPos < len(c.reads) || c.bulk > 0) {
+		// closing a socket over data the peer has sent and nobody read makes the kernel answer
+		// with a reset, and the peer then loses what it had not read yet
+		c.closedOverUnread = 1
+	}
+	c.closed++
+	c.ev("Close")
+	return nil
+}
 func (c *verifStreamConn) CloseRead() error { c.closedRead++; c.ev("CloseRead"); return nil }
 func (c *verifStreamConn) CloseWrite() error {
 	c.closedWrite++
